@@ -155,3 +155,70 @@ Definition C04_spec (aux : bool * Z * list (bool * bool)) (o : parse_out) : bool
   let '(wf, R, flags) := aux in
   on_chart wf o (fun ch _ =>
     match the_track ch with Some tr => spec_b_chain R None (it_notes tr) flags | None => false end).
+
+(** *** Line level (C07, C08, C09, C14): [K.ParsedData.from_chart_line] and the dispatcher *)
+Definition dec_in := (kind * str)%type.
+Definition dec_out := result pdata.
+Definition dec_verdict (c : cfg) (i : dec_in) (o : dec_out) : N :=
+  verdict (result_eqb pdata_eqb) (dec c (fst i) (snd i)) o.
+(** The reference decoder: reference regexes of Spec/RefRegex.v, written from the property texts. *)
+Definition dec_spec (c : cfg) (i : dec_in) (o : dec_out) : bool :=
+  result_eqb pdata_eqb (dec (ref_cfg c) (fst i) (snd i)) o.
+
+Definition disp_in := (list kind * list kind * list str)%type.      (* order tried, kinds reported, lines *)
+Definition disp_res := (list (list pdata) * list str)%type.
+Definition disp_out := result disp_res.
+Definition disp_res_eqb (a b : disp_res) : bool :=
+  list_eqb (list_eqb pdata_eqb) (fst a) (fst b) && list_eqb str_eqb (snd a) (snd b).
+Definition disp_model (c : cfg) (i : disp_in) : disp_out :=
+  let '(order, report, lines) := i in
+  let* outs := dispatch c order lines in
+  Ok (map (fun k => data_of k outs) report, warnings_of outs).
+Definition disp_verdict (c : cfg) (i : disp_in) (o : disp_out) : N :=
+  verdict (result_eqb disp_res_eqb) (disp_model c i) o.
+(** Judged against the reference configuration in its canonical order [report]. *)
+Definition disp_spec (c : cfg) (i : disp_in) (o : disp_out) : bool :=
+  let '(order, report, lines) := i in
+  result_eqb disp_res_eqb (disp_model (ref_cfg c) (report, report, lines)) o.
+
+(** *** C14, chart level: unparsable lines inserted into a clean chart.
+    aux: the implementation's parse of the clean chart and the inserted lines in routing order. *)
+Definition C14_spec (aux : parse_out * list str) (o : parse_out) : bool :=
+  match fst aux, o with
+  | Ok (ch0, logs0), Ok (ch, logs) =>
+      chart_eqb ch ch0 &&
+      list_eqb log_eqb logs (logs0 ++ map LUnparsable (snd aux))
+  | Err e0, Err e => errkind_eqb e0 e
+  | _, _ => false
+  end.
+
+(** *** C08, chart level: decoded values.  aux: the written (tick, n), (tick, u, l), (tick, us). *)
+Definition C08_aux := (bool * list (Z * Z) * list (Z * Z * option Z) * list (Z * Z))%type.
+Definition same_len {A B} (a : list A) (b : list B) : bool := Nat.eqb (length a) (length b).
+Definition C08_spec (aux : C08_aux) (o : parse_out) : bool :=
+  let '(wf, bpms, tss, ans) := aux in
+  on_chart wf o (fun ch _ =>
+    let s := c_sync ch in
+    same_len (evs (st_bpm s)) bpms &&
+    forallb (fun p => (b_tick (fst p) =? fst (snd p))
+                      && f_same (b_bpm (fst p)) (fdiv (of_Z (snd (snd p))) (of_Z 1000)))
+            (combine (evs (st_bpm s)) bpms) &&
+    same_len (st_ts s) tss &&
+    forallb (fun p => let '(t, u, l) := snd p in
+                      (t_tick (ts_at (fst p)) =? t) && (ts_upper (fst p) =? u)
+                      && (ts_lower (fst p) =? match l with Some l => 2 ^ l | None => 4 end))
+            (combine (st_ts s) tss) &&
+    same_len (st_anchor s) ans &&
+    forallb (fun p => (a_tick (fst p) =? fst (snd p)) && (a_ts (fst p) =? snd (snd p)))
+            (combine (st_anchor s) ans)).
+
+(** *** C09, chart level: aux = expected (tick, value) lists for text, section, lyric. *)
+Definition C09_aux := (bool * list (Z * str) * list (Z * str) * list (Z * str))%type.
+Definition gev_pairs (l : list global_event) : list (Z * str) := map (fun e => (t_tick (ge_at e), ge_value e)) l.
+Definition Zstr_eqb (a b : Z * str) : bool := (fst a =? fst b) && str_eqb (snd a) (snd b).
+Definition C09_spec (aux : C09_aux) (o : parse_out) : bool :=
+  let '(wf, tx, se, ly) := aux in
+  on_chart wf o (fun ch _ =>
+    list_eqb Zstr_eqb (gev_pairs (g_text (c_gev ch))) tx &&
+    list_eqb Zstr_eqb (gev_pairs (g_section (c_gev ch))) se &&
+    list_eqb Zstr_eqb (gev_pairs (g_lyric (c_gev ch))) ly).
